@@ -118,12 +118,12 @@ var sharedStore simpleblob.Interface
 
 func mkConfig(id string, native, hack, pad bool, override map[string]config.DBIOptions) (config.Config, config.LMDB) {
 	c := config.Config{
-		Instance:             id,
-		LMDBs:                map[string]config.LMDB{},
-		LMDBPollInterval:     time.Millisecond,
-		StoragePollInterval:  time.Millisecond,
-		StorageRetryInterval: time.Millisecond,
-		StorageRetryCount:    3,
+		Instance:                    id,
+		LMDBs:                       map[string]config.LMDB{},
+		LMDBPollInterval:            time.Millisecond,
+		StoragePollInterval:         time.Millisecond,
+		StorageRetryInterval:        time.Millisecond,
+		StorageRetryCount:           3,
 		MemoryDownloadedSnapshots:   2,
 		MemoryDecompressedSnapshots: 3,
 	}
